@@ -429,7 +429,12 @@ class PandasMetrics(NDFrame):
         Freq: D, dtype: float64
         """
         self_returns = self.simple_returns()
-        other_returns = other.simple_returns().squeeze().reindex(self_returns.index)
+        other_returns = other.simple_returns()
+        if isinstance(other_returns, pd.DataFrame):
+            # Single column frame to series. Note that squeezing all axes
+            # would return a scalar when there is a single return.
+            other_returns = other_returns.squeeze(axis='columns')
+        other_returns = other_returns.reindex(self_returns.index)
         excess_returns = self_returns.subtract(other_returns, axis=0)
         return excess_returns
 
